@@ -264,7 +264,7 @@ func vpC22GenHandler(t *rapid.T) *vpC22Handler {
 		h.presetCEVia = rapid.IntRange(0, 3).Draw(t, "presetVia")
 	}
 	if rapid.IntRange(0, 3).Draw(t, "varyPreset") == 0 {
-		h.presetVary = rapid.SampledFrom([]string{"Origin", "accept-encoding", "Accept-Encoding", "Origin, Accept-Encoding", "Origin,User-Agent", "*", "Cookie"}).Draw(t, "vary")
+		h.presetVary = rapid.SampledFrom([]string{"Origin", "accept-encoding", "Accept-Encoding", "Origin, Accept-Encoding", "Origin,User-Agent", "*", "Cookie", "X-Accept-Encoding-Policy", "Origin, X-Accept-Encoding-Policy"}).Draw(t, "vary")
 	}
 	h.mode = rapid.IntRange(0, len(vpC22Modes)-1).Draw(t, "mode")
 	h.body = vpC22GenBody(t, 65536)
@@ -513,10 +513,160 @@ func vpC22VaryHasAE(values []string) bool {
 	return false
 }
 
+const vpC22KeyVary = "C22/vary-substring-match"
+
+// vpC22VaryProbe: a handler-set Vary value that merely CONTAINS the text "Accept-Encoding" inside another
+// field name; is Accept-Encoding still added when the wrapper compresses?
+var vpC22VaryOnce sync.Once
+
+func vpC22VaryProbe() {
+	vpC22VaryOnce.Do(func() {
+		h := &vpC22Handler{status: 200, contentType: "text/plain", presetVary: "X-Accept-Encoding-Policy", body: vpC22Body(1, 1000, 3), pieces: []int{100}}
+		r := vpC22ServeOne(vpC22Wrapper{kind: 0, level: CompressDefaultCompression}, h, vpC22AEGen{present: true, values: []string{"gzip"}}, "GET", "Accept-Encoding", true)
+		present := r.err != "" && strings.Contains(r.err, "lacks Vary")
+		detail := "preset Vary: X-Accept-Encoding-Policy + gzip compression -> Vary " + fmt.Sprintf("%q", r.vary)
+		if r.err != "" {
+			detail += ": " + r.err
+		}
+		vpProbe(vpC22KeyVary, present, detail)
+	})
+}
+
+type vpC22Result struct {
+	err        string // "" = all assertions hold
+	outcome    string
+	nontrivial bool
+	wire       int
+	vary       []string
+	desc       func() string
+}
+
+// vpC22ServeOne serves one request through a fresh Server on an in-memory connection and evaluates the response.
+func vpC22ServeOne(w vpC22Wrapper, h *vpC22Handler, ae vpC22AEGen, method, aeName string, connClose bool) (res vpC22Result) {
+	fail := func(format string, a ...any) vpC22Result {
+		res.err = fmt.Sprintf(format, a...)
+		return res
+	}
+	var req bytes.Buffer
+	fmt.Fprintf(&req, "%s /c22?x=1 HTTP/1.1\r\nHost: vp.example\r\n", method)
+	if ae.present {
+		for _, v := range ae.values {
+			fmt.Fprintf(&req, "%s: %s\r\n", aeName, v)
+		}
+	}
+	if method == "POST" {
+		req.WriteString("Content-Length: 3\r\n")
+	}
+	if connClose {
+		req.WriteString("Connection: close\r\n")
+	}
+	req.WriteString("\r\n")
+	if method == "POST" {
+		req.WriteString("abc")
+	}
+
+	calls := 0
+	srv := &Server{
+		Handler: w.wrap(func(ctx *RequestCtx) {
+			calls++
+			h.serve(ctx)
+		}),
+		Logger: vpC22NullLogger{},
+	}
+	conn := &vpC22Conn{r: bytes.NewReader(req.Bytes())}
+	_ = srv.ServeConn(conn)
+	res.desc = func() string { return fmt.Sprintf("%s; Accept-Encoding %q; handler %s", w, ae.values, h.describe()) }
+	if calls != 1 {
+		return fail("handler called %d times for one request: %s", calls, res.desc())
+	}
+	raw := conn.w.Bytes()
+	resp, err := http.ReadResponse(bufio.NewReader(bytes.NewReader(raw)), &http.Request{Method: method})
+	if err != nil {
+		return fail("response does not parse: %v: %s\n%q", err, res.desc(), vpC22Trunc(raw))
+	}
+	got, err := io.ReadAll(resp.Body)
+	if err != nil {
+		return fail("response body is not completely framed: %v (read %d bytes): %s\nhead: %q", err, len(got), res.desc(), vpC22Head(raw))
+	}
+	res.wire = len(got)
+	ces := resp.Header.Values("Content-Encoding")
+	res.vary = resp.Header.Values("Vary")
+	parsed := vpC22ParseAE(ae.present, ae.values)
+	desc := func() string {
+		return fmt.Sprintf("%s; Accept-Encoding %q; handler %s -> status %d Content-Encoding %q Vary %q, %d body bytes on the wire", w, ae.values, h.describe(), resp.StatusCode, ces, res.vary, len(got))
+	}
+	res.desc = desc
+	if resp.StatusCode != h.status {
+		return fail("status %d, handler set %d: %s", resp.StatusCode, h.status, desc())
+	}
+
+	// which supported codings does the request accept (independent parse)?
+	anyAccepted := false
+	for _, c := range []string{"gzip", "deflate", "br", "zstd"} {
+		if w.supports(c) && parsed.accepts(c) == 1 {
+			anyAccepted = true
+		}
+	}
+	res.nontrivial = len(h.body) >= minCompressLen && anyAccepted
+	res.outcome = "identity"
+
+	switch {
+	case h.presetCE != "":
+		res.outcome = "preset-untouched"
+		if len(ces) != 1 || ces[0] != h.presetCE {
+			return fail("handler preset Content-Encoding %q but the response declares %q: %s", h.presetCE, ces, desc())
+		}
+		if !bytes.Equal(got, h.body) {
+			return fail("handler preset Content-Encoding %q (body already encoded) but the body was changed: %d bytes, want the handler's %d (first difference at %d): %s", h.presetCE, len(got), len(h.body), vpC22FirstDiff(got, h.body), desc())
+		}
+	case len(ces) == 0:
+		if !bytes.Equal(got, h.body) {
+			return fail("no Content-Encoding declared but body differs from the handler's: %d bytes, want %d (first difference at %d): %s", len(got), len(h.body), vpC22FirstDiff(got, h.body), desc())
+		}
+	default:
+		if len(ces) != 1 {
+			return fail("wrapper produced %d Content-Encoding fields: %s", len(ces), desc())
+		}
+		ce := ces[0]
+		res.outcome = "compressed-" + ce
+		codec := vpC22DecoderFor(ce)
+		if codec == nil {
+			return fail("wrapper declared an unexpected Content-Encoding %q: %s", ce, desc())
+		}
+		// a zstd encoder given no input emits no frame at all; an empty payload stands for an empty body there
+		if !(ce == "zstd" && len(got) == 0 && len(h.body) == 0) {
+			if msg := vpC22CheckDecodes(codec, got, h.body); msg != "" {
+				return fail("response body does not decode to the handler's body: %s: %s", msg, desc())
+			}
+		}
+		switch parsed.accepts(ce) {
+		case 0:
+			return fail("response uses Content-Encoding %q which the request does not accept: %s", ce, desc())
+		case -1:
+			res.outcome += "(ambiguous-AE)"
+		}
+		if !vpC22VaryHasAE(res.vary) {
+			return fail("compressed response (Content-Encoding %q) lacks Vary: Accept-Encoding: %s", ce, desc())
+		}
+		if !w.supports(ce) {
+			return fail("%s produced Content-Encoding %q: %s", w.name(), ce, desc())
+		}
+	}
+	return res
+}
+
 func TestVP_C22_Handler(t *testing.T) {
 	vpC22Zstd0Probe()
+	vpC22VaryProbe()
 	rapid.Check(t, func(t *rapid.T) {
 		h := vpC22GenHandler(t)
+		if vpThorough() && rapid.IntRange(0, 60).Draw(t, "hugeBody") == 0 {
+			h.body = vpC22Body(rapid.IntRange(0, 4).Draw(t, "hugeKind"), rapid.IntRange(65537, 4<<20).Draw(t, "hugeSize"), rapid.Uint64().Draw(t, "hugeSeed"))
+		}
+		if strings.Contains(h.presetVary, "X-Accept-Encoding") && vpKnownOpen(vpC22KeyVary) {
+			vpExclude(vpC22KeyVary)
+			h.presetVary = "Origin"
+		}
 		ae := vpC22GenAE(t)
 		w := vpC22Wrapper{kind: rapid.SampledFrom([]int{0, 1, 1, 1, 2, 2, 2, 3}).Draw(t, "wrapper")}
 		w.level = CompressDefaultCompression
@@ -535,118 +685,55 @@ func TestVP_C22_Handler(t *testing.T) {
 		if rapid.IntRange(0, 5).Draw(t, "post") == 0 {
 			method = "POST"
 		}
-		var req bytes.Buffer
-		fmt.Fprintf(&req, "%s /c22?x=1 HTTP/1.1\r\nHost: vp.example\r\n", method)
 		aeName := rapid.SampledFrom([]string{"Accept-Encoding", "Accept-Encoding", "accept-encoding", "ACCEPT-ENCODING"}).Draw(t, "aeName")
-		if ae.present {
-			for _, v := range ae.values {
-				fmt.Fprintf(&req, "%s: %s\r\n", aeName, v)
+		connClose := rapid.Bool().Draw(t, "connClose")
+		k := 1
+		if len(h.body) <= 20000 && rapid.IntRange(0, 7).Draw(t, "concurrentConns") == 0 {
+			k = rapid.SampledFrom([]int{2, 4, 16}).Draw(t, "k")
+			if vpC22HeavyLevel("brotli", w.brotliLevel) && w.kind >= 2 && k > 2 {
+				k = 2
 			}
 		}
-		if method == "POST" {
-			req.WriteString("Content-Length: 3\r\n")
-		}
-		if rapid.Bool().Draw(t, "connClose") {
-			req.WriteString("Connection: close\r\n")
-		}
-		req.WriteString("\r\n")
-		if method == "POST" {
-			req.WriteString("abc")
-		}
-
-		calls := 0
-		srv := &Server{
-			Handler: w.wrap(func(ctx *RequestCtx) {
-				calls++
-				h.serve(ctx)
-			}),
-			Logger: vpC22NullLogger{},
-		}
-		conn := &vpC22Conn{r: bytes.NewReader(req.Bytes())}
-		_ = srv.ServeConn(conn)
-		if calls != 1 {
-			t.Fatalf("handler called %d times for one request (AE %q)", calls, ae.values)
-		}
-		raw := conn.w.Bytes()
-		resp, err := http.ReadResponse(bufio.NewReader(bytes.NewReader(raw)), &http.Request{Method: method})
-		if err != nil {
-			t.Fatalf("response does not parse: %v\n%q", err, vpC22Trunc(raw))
-		}
-		got, err := io.ReadAll(resp.Body)
-		if err != nil {
-			t.Fatalf("%s, AE %q, handler %s: response body is not completely framed: %v (read %d bytes)\nhead: %q", w, ae.values, h.describe(), err, len(got), vpC22Head(raw))
-		}
-		ces := resp.Header.Values("Content-Encoding")
-		parsed := vpC22ParseAE(ae.present, ae.values)
-		desc := func() string {
-			return fmt.Sprintf("%s; Accept-Encoding %q; handler %s -> status %d Content-Encoding %q Vary %q, %d body bytes on the wire", w, ae.values, h.describe(), resp.StatusCode, ces, resp.Header.Values("Vary"), len(got))
-		}
-		if resp.StatusCode != h.status {
-			t.Fatalf("status %d, handler set %d: %s", resp.StatusCode, h.status, desc())
-		}
-
-		// which supported codings does the request accept (independent parse)?
-		anyAccepted := false
-		for _, c := range []string{"gzip", "deflate", "br", "zstd"} {
-			if w.supports(c) && parsed.accepts(c) == 1 {
-				anyAccepted = true
-			}
-		}
-		nontrivial := len(h.body) >= minCompressLen && anyAccepted
-		outcome := "identity"
 		sm := "buffered"
 		if h.streamed() {
 			sm = "streamed"
 		}
-
-		switch {
-		case h.presetCE != "":
-			outcome = "preset-untouched"
-			if len(ces) != 1 || ces[0] != h.presetCE {
-				t.Fatalf("handler preset Content-Encoding %q but the response declares %q: %s", h.presetCE, ces, desc())
-			}
-			if !bytes.Equal(got, h.body) {
-				t.Fatalf("handler preset Content-Encoding %q (body already encoded) but the body was changed: %d bytes, want the handler's %d (first difference at %d): %s", h.presetCE, len(got), len(h.body), vpC22FirstDiff(got, h.body), desc())
-			}
-		case len(ces) == 0:
-			if !bytes.Equal(got, h.body) {
-				t.Fatalf("no Content-Encoding declared but body differs from the handler's: %d bytes, want %d (first difference at %d): %s", len(got), len(h.body), vpC22FirstDiff(got, h.body), desc())
-			}
-		default:
-			if len(ces) != 1 {
-				t.Fatalf("wrapper produced %d Content-Encoding fields: %s", len(ces), desc())
-			}
-			ce := ces[0]
-			outcome = "compressed-" + ce
-			codec := vpC22DecoderFor(ce)
-			if codec == nil {
-				t.Fatalf("wrapper declared an unexpected Content-Encoding %q: %s", ce, desc())
-			}
-			// a zstd encoder given no input emits no frame at all; an empty payload stands for an empty body there
-			if !(ce == "zstd" && len(got) == 0 && len(h.body) == 0) {
-				if msg := vpC22CheckDecodes(codec, got, h.body); msg != "" {
-					t.Fatalf("response body does not decode to the handler's body: %s: %s", msg, desc())
+		results := make([]vpC22Result, k)
+		if k == 1 {
+			results[0] = vpC22ServeOne(w, h, ae, method, aeName, connClose)
+		} else {
+			// k connections served at the same time, each with its own copy of the handler and a distinct body
+			sm += "/concurrent"
+			var wg sync.WaitGroup
+			start := make(chan struct{})
+			for i := 0; i < k; i++ {
+				hc := *h
+				hc.body = append([]byte(nil), h.body...)
+				if i > 0 && len(hc.body) > 0 {
+					hc.body[len(hc.body)/2] ^= byte(i)
 				}
+				wg.Add(1)
+				go func(i int, hc *vpC22Handler) {
+					defer wg.Done()
+					<-start
+					results[i] = vpC22ServeOne(w, hc, ae, method, aeName, connClose)
+				}(i, &hc)
 			}
-			switch parsed.accepts(ce) {
-			case 0:
-				t.Fatalf("response uses Content-Encoding %q which the request does not accept: %s", ce, desc())
-			case -1:
-				outcome += "(ambiguous-AE)"
-			}
-			if !vpC22VaryHasAE(resp.Header.Values("Vary")) {
-				t.Fatalf("compressed response (Content-Encoding %q) lacks Vary: Accept-Encoding: %s", ce, desc())
-			}
-			if !w.supports(ce) {
-				t.Fatalf("%s produced Content-Encoding %q: %s", w.name(), ce, desc())
+			close(start)
+			wg.Wait()
+		}
+		r0 := results[0]
+		vpCase("handler/"+w.name()+"/"+sm+"/"+r0.outcome, r0.nontrivial,
+			fmt.Sprintf("%v|%v|%d|%d|%d|%s|%s|%d|%x|%d", w, ae.values, h.mode, len(h.body), h.status, h.contentType, h.presetCE, r0.wire, vpC22Sum(h.body), k), r0.desc)
+		if r0.nontrivial && h.presetCE == "" && h.compressibleType() {
+			vpExtra("handler_cases_where_compression_was_possible", 1)
+			if strings.HasPrefix(r0.outcome, "compressed-") {
+				vpExtra("handler_cases_where_compression_was_possible_and_happened", 1)
 			}
 		}
-		vpCase("handler/"+w.name()+"/"+sm+"/"+outcome, nontrivial,
-			fmt.Sprintf("%v|%v|%d|%d|%d|%s|%s|%d|%x", w, ae.values, h.mode, len(h.body), h.status, h.contentType, h.presetCE, len(got), vpC22Sum(h.body)), desc)
-		if nontrivial && h.presetCE == "" && h.compressibleType() {
-			vpExtra("handler_cases_where_compression_was_possible", 1)
-			if strings.HasPrefix(outcome, "compressed-") {
-				vpExtra("handler_cases_where_compression_was_possible_and_happened", 1)
+		for i, r := range results {
+			if r.err != "" {
+				t.Fatalf("connection %d of %d: %s", i+1, k, r.err)
 			}
 		}
 	})
